@@ -25,7 +25,7 @@ from vf.common import DISCHARGED, VIOLATED, INCONCLUSIVE
 DEV_WIRES = [0, 1, 2]
 SHOTS = 3
 WIRESETS = [[0], [2], [0, 1], [1, 0], [2, 0], [0, 1, 2], [2, 0, 1]]
-KINDS = ["expval eigvals", "var eigvals", "expval Pauli word", "var Pauli word", "probs", "counts", "counts all_outcomes", "sample wires", "sample eigvals", "counts Pauli word", "expval shot_range", "probs bin_size"]
+KINDS = ["counts batched", "probs batched", "expval eigvals", "var eigvals", "expval Pauli word", "var Pauli word", "probs", "counts", "counts all_outcomes", "sample wires", "sample eigvals", "counts Pauli word", "expval shot_range", "probs bin_size"]
 
 
 def idx_of(row, ws):
@@ -83,6 +83,17 @@ def run_case(kind, ws, samples, lam):
             for b in range(2):
                 exp.append(Counter(ind4[2 * b:2 * b + 2]).get(j, 0) / 2)
         return list(got.reshape(2 ** k, 2).ravel()), exp
+    if kind in ("counts batched", "probs batched"):
+        # broadcasting: a batch of two sample arrays (the array and its bit-wise complement)
+        batch = np.stack([samples, 1 - samples])
+        inds = [[idx_of(r, ws) for r in b] for b in batch]
+        if kind == "counts batched":
+            got = CountsMP(wires=Wires(ws), all_outcomes=False).process_samples(batch, W)
+            exp = [dict(Counter(format(i, f"0{k}b") for i in ib)) for ib in inds]
+            return ["dict", [{str(a): int(b) for a, b in g.items()} for g in got]], ["dict", exp]
+        got = qp.probs(wires=ws).process_samples(batch, W)
+        exp = [Counter(ib).get(j, 0) / N for ib in inds for j in range(2 ** k)]
+        return list(np.asarray(got).reshape(2, 2 ** k).ravel()), exp
     if kind in ("counts", "counts all_outcomes"):
         allo = kind.endswith("all_outcomes")
         got = CountsMP(wires=Wires(ws), all_outcomes=allo).process_samples(samples, W)
@@ -194,7 +205,7 @@ def run(ctx):
 
     ctx.encode(ExpectationMP.process_samples, VarianceMP.process_samples, qp.measurements.ProbabilityMP.process_samples, CountsMP.process_samples, SampleMP.process_samples, process_raw_samples)
     ctx.bound(samples=f"every {SHOTS} x {len(DEV_WIRES)} array of bits ({2 ** (SHOTS * len(DEV_WIRES))} arrays, solver-enumerated); 4 shots for bin_size", eigenvalues="arbitrary real spectra (symbolic, 2^k values)",
-              wires=wiresets, outside="mid-circuit measurement values (sampled through dynamic_one_shot), broadcasting (batched samples), process_counts, shot vectors, sample dtype option")
+              wires=wiresets, outside="mid-circuit measurement values (sampled through dynamic_one_shot), broadcasting other than a batch of two for counts/probs, process_counts, shot vectors, sample dtype option")
     ctx.assume(*sx.SHIM_NOTES[:3], "oracle: direct arithmetic on the same sample array; index of a sample = measured bits in the order of the measurement's wires, first wire most significant")
     ctx.trust("z3 5.1.0", "vf.symbit / vf.symx lifting")
     ctx.rule = "one obligation per (measurement kind, wires): all sample arrays are solver-enumerated paths; with symbolic eigenvalues one z3 validity query per array"
